@@ -26,6 +26,7 @@ type Engine struct {
 	specs     *Specs
 	sorts     *Sorts
 	keySorts  map[string]string
+	keyIsRef  map[string]bool
 	fnIDs     map[string]int
 	fnByKey   map[string]*ssa.Function
 	errorType *types.Interface
@@ -40,7 +41,7 @@ type Engine struct {
 func (e *Engine) traceElemSort(tr string) string { return e.traceElemSorts[tr] }
 
 func loadEngine(repo, verifDir string) (*Engine, error) {
-	e := &Engine{repo: repo, verifDir: verifDir, keySorts: map[string]string{}, fnIDs: map[string]int{}, fnByKey: map[string]*ssa.Function{}, typeCache: map[string]types.Type{}, traceElemType: map[string]types.Type{}, traceElemSorts: map[string]string{}}
+	e := &Engine{repo: repo, verifDir: verifDir, keySorts: map[string]string{}, keyIsRef: map[string]bool{}, fnIDs: map[string]int{}, fnByKey: map[string]*ssa.Function{}, typeCache: map[string]types.Type{}, traceElemType: map[string]types.Type{}, traceElemSorts: map[string]string{}}
 	e.fset = token.NewFileSet()
 	cfg := &packages.Config{
 		Mode:       packages.NeedName | packages.NeedFiles | packages.NeedCompiledGoFiles | packages.NeedImports | packages.NeedDeps | packages.NeedTypes | packages.NeedSyntax | packages.NeedTypesInfo | packages.NeedTypesSizes,
@@ -334,6 +335,7 @@ func (e *Engine) verifyUnit(key string) *Unit {
 	f := &fx{e: e, sc: sc, fn: fn, vals: map[ssa.Value]Val{}, contract: c}
 	f.top = f
 	f.epochConsts = map[string]Term{}
+	f.epochAlloc = map[int]Term{}
 	f.counters = map[string]int{}
 	f.assumptions = map[string]bool{}
 	f.srcLines = map[string][]string{}
@@ -388,6 +390,7 @@ func (e *Engine) runUnit(f *fx, c *Contract) {
 	f.regKey("E:panicking", "Bool")
 	f.regKey("E:pval", "Iface")
 	f.entryAlloc = f.get(entry, "E:alloc")
+	f.epochAlloc[0] = f.entryAlloc
 	sc.assert(T("Bool", "(>= %s 0)", f.entryAlloc.S))
 	f.set(entry, "E:panicking", tFalse)
 	f.cur = entry
@@ -416,7 +419,12 @@ func (e *Engine) runUnit(f *fx, c *Contract) {
 	}
 	// axioms
 	for _, ax := range e.specs.Axioms {
-		sc.assert(f.specBool(ax, f.topEnv))
+		// axioms go into a separate list; only those mentioning symbols used by the unit are emitted
+		n := len(sc.lines)
+		t := f.specBool(ax, f.topEnv)
+		decls := append([]string{}, sc.lines[n:]...)
+		sc.lines = sc.lines[:n]
+		sc.axioms = append(sc.axioms, strings.Join(append(decls, "(assert "+t.S+")"), "\n"))
 	}
 	if c != nil {
 		for _, rq := range c.Requires {
@@ -475,8 +483,44 @@ func (e *Engine) runUnit(f *fx, c *Contract) {
 			f.oblige("exsures", fmt.Sprintf("exsures%s@panic#%d", clauseName(ex, k), i), g, ex.Props, ex.Where+" / "+where, ex.Src)
 		}
 	}
+	// static call-site counts
+	if c != nil {
+		for _, cs := range c.CallSites {
+			if cs.Count < 0 {
+				continue
+			}
+			n := countCallSites(fn, cs.Callee)
+			f.curReach = tTrue
+			g := tTrue
+			if n != cs.Count {
+				g = tFalse
+			}
+			f.oblige("callsite-count", fmt.Sprintf("callsite-count:%s", cs.Callee), g, nil, cs.Where, fmt.Sprintf("expected %d static call sites of %s, found %d", cs.Count, cs.Callee, n))
+		}
+	}
 	if c != nil && !c.NoReturn && len(exitConds) > 0 {
 		f.curReach = or(exitConds...)
 		f.cover("cover:exit")
 	}
+}
+
+// countCallSites counts static call sites of callee key in fn and its anonymous functions.
+func countCallSites(fn *ssa.Function, key string) int {
+	n := 0
+	for _, b := range fn.Blocks {
+		for _, in := range b.Instrs {
+			if ci, ok := in.(ssa.CallInstruction); ok {
+				c := ci.Common()
+				if sf := c.StaticCallee(); sf != nil && fnKey(sf) == key {
+					n++
+				} else if c.IsInvoke() && "("+typeKeyString(c.Value.Type())+")."+c.Method.Name() == key {
+					n++
+				}
+			}
+		}
+	}
+	for _, a := range fn.AnonFuncs {
+		n += countCallSites(a, key)
+	}
+	return n
 }
